@@ -9,6 +9,7 @@ package counter
 // loads) and by the independent decoder of verifshim/ref.
 
 import (
+	"runtime/metrics"
 	"encoding/binary"
 	"fmt"
 	"os"
@@ -30,6 +31,7 @@ type zzvParseOut struct {
 	err      error
 	panicked string
 	noReturn bool
+	alloc    uint64 // heap bytes allocated while decoding
 }
 
 // zzvGuard is a buffer whose last byte is followed by an inaccessible page, so that a read
@@ -76,8 +78,19 @@ func zzvParse(data []byte) (out zzvParseOut) {
 			out.panicked = fmt.Sprintf("%v @ %s", r, zzvPanicSite(string(debug.Stack())))
 		}
 	}()
+	a0 := zzvAllocBytes()
 	f, err := Parse("f.v1.count", data)
-	return zzvParseOut{f: f, err: err}
+	return zzvParseOut{f: f, err: err, alloc: zzvAllocBytes() - a0}
+}
+
+// zzvAllocBytes reads the cumulative number of heap bytes allocated by the process (no stop-the-world).
+func zzvAllocBytes() uint64 {
+	s := []metrics.Sample{{Name: "/gc/heap/allocs:bytes"}}
+	metrics.Read(s)
+	if s[0].Value.Kind() != metrics.KindUint64 {
+		return 0
+	}
+	return s[0].Value.Uint64()
 }
 
 // zzvLenient collects every (expanded name -> values) pair stored in any
@@ -146,6 +159,10 @@ func (c *zzvC06) check(desc string, data []byte) {
 	out := zzvParse(data)
 	cf, werr := ref.DecodeCounterFile(data)
 	class := "malformed/rejected"
+	// Decoding keeps the names and values it returns, nothing more: memory stays proportional to the input.
+	if limit := uint64(64*len(data) + 1<<20); out.alloc > limit && !out.noReturn && out.panicked == "" {
+		c.res.Violate("parse-memory", fmt.Sprintf("Parse allocates %d bytes for an input of %d bytes (more than 64x + 1 MiB): %s", out.alloc, len(data), desc), map[string]any{"case": desc})
+	}
 	switch {
 	case out.noReturn:
 		c.res.Violate("parse-no-return", fmt.Sprintf("Parse does not return within %d file-word loads: %s", zzvParseBudget, desc), map[string]any{"case": desc})
@@ -353,6 +370,28 @@ func TestVerifC06(t *testing.T) {
 					}
 				}
 			}
+		}
+	}
+
+	// C. Overlapping records: one chain visits a record every 32 bytes, every record's name runs to the end of
+	// the file (name lengths up to 2^24-1 fit the length word), so all names are distinct and overlap.
+	for _, size := range []int{32768, 65536} {
+		for _, step := range []uint32{32, 64} {
+			w := ref.NewCFWriter(zzvMetaOK)
+			d := append(w.Bytes(), make([]byte, size)...)[:size]
+			first := (w.HdrLen + 4 + 4*ref.CFBuckets + 31) / 32 * 32
+			binary.LittleEndian.PutUint32(d[w.HdrLen:], uint32(size)) // limit
+			binary.LittleEndian.PutUint32(d[w.HdrLen+4:], first)      // head of bucket 0
+			for off := first; int(off)+48 <= size; off += step {
+				binary.LittleEndian.PutUint64(d[off:], uint64(off))
+				binary.LittleEndian.PutUint32(d[off+8:], uint32(size)-off-16|0xff000000)
+				next := off + step
+				if int(next)+48 > size {
+					next = 0
+				}
+				binary.LittleEndian.PutUint32(d[off+12:], next)
+			}
+			c.check(fmt.Sprintf("C:overlapping records size=%d step=%d", size, step), d)
 		}
 	}
 
